@@ -17,3 +17,15 @@ func VerifBuildHAProxyFlowsEndpointsRequest(
 	rd.stream = stream
 	return rd.buildHAProxyFlowsEndpointsRequest()
 }
+
+// VerifNewStreamsManager returns a HandlingDataManager in flows mode without the
+// process-level services (hub, metrics, doctor). Verification harness only.
+func VerifNewStreamsManager() *HandlingDataManager {
+	return &HandlingDataManager{isStreamsEnabled: true} //nolint:exhaustruct
+}
+
+// VerifInitializeStreams runs initializeStreams: (re)load the flows, publish the new
+// engine, register its managed endpoints and schedule the removal of the previous ones.
+func (rd *HandlingDataManager) VerifInitializeStreams() error {
+	return rd.initializeStreams()
+}
